@@ -35,6 +35,7 @@ import (
 type c07Fake struct {
 	emit, keys byte
 	segSize    uint64
+	graph      int // 0: stages [m1|s1] [idx|m2|out]; 1: a second store s2 (reads s1) in a stage of its own, out reads s2
 	vals, wals []byte
 }
 
@@ -68,8 +69,17 @@ func (f *c07Fake) ExecuteNewCall(ctx context.Context, call *wasm.Call, cached wa
 		if in := argValues["m1"]; len(in) != 0 {
 			call.DoSet(1, []string{"k0", "k1"}[blk%2], in)
 		}
+	case "s2":
+		if in := argValues["m1"]; len(in) != 0 {
+			v, _ := call.DoGetLast(0, "k0")
+			call.DoSet(1, "c", append(append([]byte{}, v...), in...))
+		}
 	case "out":
-		v, _ := call.DoGetLast(0, "k0")
+		first := "k0"
+		if f.graph == 1 {
+			first = "c"
+		}
+		v, _ := call.DoGetLast(0, first)
 		w, _ := call.DoGetLast(0, "k1")
 		out := append([]byte{byte(len(v)), byte(len(w)), byte(len(argValues["m1"])), byte(len(argValues["m2"]))}, v...)
 		out = append(out, w...)
@@ -172,7 +182,7 @@ func (s *c07Stream) Run(ctx context.Context) error {
 	return stream.ErrStopBlockReached
 }
 
-func c07Modules() *pbsubstreams.Modules {
+func c07Modules(graph int) *pbsubstreams.Modules {
 	src := &pbsubstreams.Module_Input{Input: &pbsubstreams.Module_Input_Source_{Source: &pbsubstreams.Module_Input_Source{Type: "sf.test.Block"}}}
 	mapIn := func(n string) *pbsubstreams.Module_Input {
 		return &pbsubstreams.Module_Input{Input: &pbsubstreams.Module_Input_Map_{Map: &pbsubstreams.Module_Input_Map{ModuleName: n}}}
@@ -183,6 +193,23 @@ func c07Modules() *pbsubstreams.Modules {
 	}
 	m2 := mapper("m2", src)
 	m2.BlockFilter = &pbsubstreams.Module_BlockFilter{Module: "idx", Query: &pbsubstreams.Module_BlockFilter_QueryString{QueryString: "a"}}
+	store := func(name string, in ...*pbsubstreams.Module_Input) *pbsubstreams.Module {
+		return &pbsubstreams.Module{Name: name, BinaryEntrypoint: name, Inputs: in, Kind: &pbsubstreams.Module_KindStore_{KindStore: &pbsubstreams.Module_KindStore{UpdatePolicy: pbsubstreams.Module_KindStore_UPDATE_POLICY_SET, ValueType: "bytes"}}}
+	}
+	if graph == 1 {
+		store2In := &pbsubstreams.Module_Input{Input: &pbsubstreams.Module_Input_Store_{Store: &pbsubstreams.Module_Input_Store{ModuleName: "s2", Mode: pbsubstreams.Module_Input_Store_GET}}}
+		return &pbsubstreams.Modules{
+			Modules: []*pbsubstreams.Module{
+				{Name: "idx", BinaryEntrypoint: "idx", Inputs: []*pbsubstreams.Module_Input{src}, Kind: &pbsubstreams.Module_KindBlockIndex_{KindBlockIndex: &pbsubstreams.Module_KindBlockIndex{OutputType: "proto:sf.substreams.index.v1.Keys"}}, Output: &pbsubstreams.Module_Output{Type: "proto:sf.substreams.index.v1.Keys"}},
+				mapper("m1", src),
+				m2,
+				store("s1", mapIn("m1")),
+				store("s2", storeIn, mapIn("m1")),
+				mapper("out", store2In, mapIn("m1"), mapIn("m2")),
+			},
+			Binaries: []*pbsubstreams.Binary{{Type: "wasm/rust-v1", Content: []byte{1}}},
+		}
+	}
 	return &pbsubstreams.Modules{
 		Modules: []*pbsubstreams.Module{
 			{Name: "idx", BinaryEntrypoint: "idx", Inputs: []*pbsubstreams.Module_Input{src}, Kind: &pbsubstreams.Module_KindBlockIndex_{KindBlockIndex: &pbsubstreams.Module_KindBlockIndex{OutputType: "proto:sf.substreams.index.v1.Keys"}}, Output: &pbsubstreams.Module_Output{Type: "proto:sf.substreams.index.v1.Keys"}},
@@ -208,7 +235,7 @@ func c07Job(stateURL string, stage uint32, segment, segSize uint64, fake *c07Fak
 		return &c07Stream{h: h, start: uint64(startBlockNum), stop: stopBlockNum}, nil
 	}
 	req := &pbssinternal.ProcessRangeRequest{
-		SegmentNumber: segment, SegmentSize: segSize, Stage: stage, OutputModule: "out", Modules: c07Modules(),
+		SegmentNumber: segment, SegmentSize: segSize, Stage: stage, OutputModule: "out", Modules: c07Modules(fake.graph),
 		MergedBlocksStore: blocksURL, StateStore: stateURL, StateStoreDefaultTag: "tag", BlockType: "sf.test.Block", MeteringConfig: "null://",
 	}
 	return s.processRange(context.Background(), req, func(resp substreams.ResponseFromAnyTier) error { return nil })
@@ -225,32 +252,43 @@ func VerifC07Tier2Job() {
 	fake := &c07Fake{segSize: segSize, emit: sym.Byte("emit"), keys: sym.Byte("keys"), vals: sym.BytesN("vals", 2), wals: sym.BytesN("wals", 2)}
 	sym.Assume(fake.emit < 1<<segSize)
 	sym.Assume(fake.keys < 1<<segSize)
+	if k := sym.Param("KEYS", -1); k >= 0 {
+		fake.keys = byte(k)
+	}
 	// stage 0 runs on the first or the second segment (a partial store that does not start at
 	// the module's first block); the last stage on the first segment, where the stores it reads
 	// start empty (later segments read the snapshot the orchestrator squashes, outside a job)
 	segment := uint64(0)
-	// the jobs run on the cache: stage 0 alone; stage 0 then the last stage; the last stage alone
-	// (on the first segment it depends on no earlier job, the scheduler may start it first); the
-	// last stage then stage 0
-	order := [][]uint32{{0}, {0, 1}, {1}, {1, 0}}[sym.Choice("jobs", 4)]
+	// the jobs run on the cache, e.g.: stage 0 alone; stage 0 then the last stage; the last stage
+	// alone (on the first segment a job depends on no earlier job, the scheduler may start it
+	// first); the last stage then stage 0
+	fake.graph = sym.Param("GRAPH", 0)
+	orders := [][]uint32{{0}, {0, 1}, {1}, {1, 0}}
+	stateOf := []string{"7331"} // hex of the store module a stage is run for: s1
+	if fake.graph == 1 {
+		orders = [][]uint32{{0}, {1}, {2}, {0, 1, 2}, {2, 1, 0}, {1, 0}, {2, 0}, {1, 2}}
+		stateOf = []string{"7331", "7332"}
+	}
+	lastStage := uint32(len(stateOf))
+	order := orders[sym.Choice("jobs", len(orders))]
 	if len(order) == 1 && order[0] == 0 && sym.Param("SEGMENTS", 1) > 1 {
 		segment = uint64(sym.Choice("segment", sym.Param("SEGMENTS", 1)))
 	}
 	ranStage := map[uint32]bool{}
+	maxStage := uint32(0)
 	for _, st := range order {
 		ranStage[st] = true
+		if st > maxStage {
+			maxStage = st
+		}
 	}
 
-	// the clean runs on an empty store: stage 0, then (if the last stage is involved) stage 1
+	// the clean runs on an empty store: the stages up to the highest one involved, in order
 	defer sym.RemoveURLStores()
 	clean, cleanURL := sym.NewURLStore("clean")
-	if err := c07Job(cleanURL, 0, segment, segSize, fake); err != nil {
-		sym.Unreachable("clean-stage-0-job-completes")
-		return
-	}
-	if ranStage[1] {
-		if err := c07Job(cleanURL, 1, segment, segSize, fake); err != nil {
-			sym.Unreachable("clean-stage-1-job-completes")
+	for st := uint32(0); st <= maxStage; st++ {
+		if err := c07Job(cleanURL, st, segment, segSize, fake); err != nil {
+			sym.Unreachable("clean-job-completes")
 			return
 		}
 	}
@@ -302,9 +340,13 @@ func VerifC07Tier2Job() {
 	// ... and the results the jobs are run for are there: the store snapshot of stage 0, the
 	// output module's file of the last stage
 	for _, name := range all {
-		isState := strings.Contains(name, "/states/")
-		isOut := strings.HasPrefix(name, "tag/"+c07OutHash+"/outputs/")
-		if (ranStage[0] && isState) || (ranStage[1] && isOut) {
+		wanted := ranStage[lastStage] && strings.HasPrefix(name, "tag/"+c07OutHash+"/outputs/")
+		for st, h := range stateOf {
+			if ranStage[uint32(st)] && strings.HasPrefix(name, "tag/"+h+"/states/") {
+				wanted = true
+			}
+		}
+		if wanted {
 			sym.Assert(present[name], "job-leaves-the-result-it-is-run-for")
 		}
 	}
